@@ -22,6 +22,10 @@ func (n NativeClockFn) String() string {
 	return "<native fn>"
 }
 
+// stdinReader is shared by all calls of the input function: a buffered reader
+// may read ahead, so a reader per call would lose the lines it had buffered.
+var stdinReader = bufio.NewReader(os.Stdin)
+
 // NativeInputFn defines the native `input` function for the interpreter.
 type NativeInputFn struct{}
 
@@ -50,8 +54,7 @@ func (n NativeInputFn) Call(i *Interpreter, arguments []interface{}) (interface{
 	}
 
 	// Read the input from the user
-	reader := bufio.NewReader(os.Stdin)
-	input, err := reader.ReadString('\n')
+	input, err := stdinReader.ReadString('\n')
 	if err != nil {
 		return nil, fmt.Errorf("failed to read input: %v", err)
 	}
